@@ -87,19 +87,22 @@ def main():
     per_doc = 100 if tier == "thorough" else 40
     ndocs = len(docs) if tier == "thorough" else 8
     tasks = []
-    # the Max-SMT back ends cost ~0.2 s per block (solver process): they get a fixed stride of the templates
-    stride = {"quick": 30, "thorough": 4}[tier]
+    # the Max-SMT back ends cost ~0.3 s per block (solver process): they get a fixed stride of the templates;
+    # quick: only the default option set sees every template, the other greedy sets a third each
+    stride = {"quick": 45, "thorough": 4}[tier]
+    gstride = {"quick": 3, "thorough": 1}[tier]
     for k, o in enumerate(optsets):
         if o["backend"] == "greedy":
-            jobs = [("text", t) for t in texts]
+            g = 1 if k == 0 else gstride
+            jobs = [("text", t) for i, t in enumerate(texts) if i % g == k % g]
         else:
             jobs = [("text", t) for i, t in enumerate(texts) if i % stride == k % stride or len(t.split()) <= 2]
         # real documents: every option set sees a different rotating slice of documents in quick mode
-        dsel = docs[:ndocs] if tier == "thorough" else [docs[(k * 3 + i) % len(docs)] for i in range(3)]
+        dsel = docs[:ndocs] if tier == "thorough" else [docs[(k * 2 + i) % len(docs)] for i in range(2)]
         for d in dsel:
             for lo in range(0, per_doc if o["backend"] == "greedy" else per_doc // 2, 20):
                 jobs.append(("doc", d, lo, lo + 20))
-        tasks.append((o, jobs))
+        tasks.append((o, jobs, 1000 if o["backend"] == "greedy" else 120))
     if tier == "thorough":
         # the full option product on the rule and memory templates only
         small = [t for t in texts if len(t.split()) <= 8][:6000]
@@ -115,8 +118,12 @@ def main():
     samples = []
     per_opt = {}
     nontrivial = set()
+    timing = {}
+    slowest = []
     for o, j, r in results:
         on = gasol.optset_name(o)
+        timing[on] = round(timing.get(on, 0) + r.get("_secs", 0), 1)
+        slowest.append((r.get("_secs", 0), on, j[1] if j[0] == "text" else list(j[1:])))
         if "recs" not in r:
             verdicts["harness:" + next(k for k in r if k.startswith("harness"))] = \
                 verdicts.get("harness:" + next(k for k in r if k.startswith("harness")), 0) + 1
@@ -144,10 +151,11 @@ def main():
         "programs": programs, "disagreements_checked": changed,
         "distinct_changed_pairs": len(nontrivial),
         "verdicts": verdicts, "per_option_set": per_opt,
-        "option_sets": [gasol.optset_name(o) for o, _ in tasks],
+        "option_sets": [gasol.optset_name(t[0]) for t in tasks],
         "family_sizes": {"templates": len(texts), "rule_opcodes_extracted": ops},
         "samples": samples or [{"note": "no changed block"}],
         "solver": stats.as_dict(), "encoder_selftest": st,
+        "cpu_seconds_per_option_set": timing, "slowest_jobs": sorted(slowest, key=lambda x: -x[0])[:15],
         "functions": ["gasol_asm.optimize_asm_block_asm_format", "gasol_asm.compare_asm_block_asm_format",
                       "keep-or-revert as in gasol_asm.optimize_asm_contract"],
         "stubs": ["smt_encoding.solver.z3_executable.z3_exec -> /usr/bin/z3 (stand-in Max-SMT solver)"],
